@@ -102,8 +102,11 @@ def connect (addrs : List Addr) (timeout : Nat) (deadline : Option Nat) (raceDel
   match addrs with
   | [] => .noDns
   | [a] =>
-    -- fast path: a single address is dialled with the full connect timeout (the deadline is not consulted)
-    let p := startAttempt a 0 timeout
+    -- fast path: a single address is dialled at once, like any attempt with the connect timeout cut to
+    -- what is left until the overall deadline (fix F19; before it the deadline was not consulted here)
+    let p : Pending := match attemptLimit timeout deadline 0 with
+      | some lim => startAttempt a 0 lim
+      | none => { id := a.id, done := 0, res := some .timedOut }
     (match p.res with
      | none => .ok a.id p.done
      | some e => .err a.id e p.done)
